@@ -61,3 +61,37 @@ TEXT.update({
         "technique": "runtime monitoring: generated-input differential checks with unique tokens identifying the applied permutation",
     },
 })
+
+TEXT.update({
+    "C01": {
+        "level": "LazyProperty hooks on both real non-shear contribution classes judge every object at the moment its cached "
+                 "values are computed. Reference 1: F_ph(T,V) of a registered closed-form spectrum evaluated in longdouble with "
+                 "own CODATA constants and differentiated numerically (8th-order stencils in ln V) - no Grueneisen algebra shared "
+                 "with the code; reference 2: closed-form sums re-derived from the arrays the object was given. Zero-point and "
+                 "thermal parts separately, T=0 rows exactly zero, off-diagonal pressure term exactly P_total-P_static. Workload: "
+                 "1-8 q-points, 1-10 atoms, weights over six decades, T grids with 0 anywhere and down to 1e-3 K, 2-40 volumes in "
+                 "either order, strain fractions varying along V, garbage in the Gamma acoustic slots, hostile classes.",
+        "note": "Tolerance 1e-6 x sum of absolute mode terms (measured agreement 5e-9). Spectra are smooth closed forms; arbitrary gamma arrays are covered by reference 2 only.",
+        "technique": "runtime monitoring: LazyProperty hooks on the real classes + independent free-energy oracle (numerical differentiation)",
+    },
+    "C02": {
+        "level": "Same hooks as C01 plus the gap: isothermal_to_adiabatic and value_adiabatic of every non-shear object are compared "
+                 "with T V (dP/dT)^2/(9 e_i e_j C_V), dP/dT from the mixed numerical derivative of the longdouble F_ph (second "
+                 "reference from arrays), for arbitrary positive C_V fields; T=0 rows exactly 0, diagonal gap non-negative where "
+                 "C_V>0. Shear part: all 21 keys run through the real task list with a scheduler monitor that checks, at the moment "
+                 "a shear task's adiabatic value is requested, that its inputs are the isothermal-store arrays, that no dependency "
+                 "is read from the adiabatic store, and that adiabatic == isothermal element-wise while the stores differ.",
+        "note": "Comparison scale is cancellation-aware (sum |gamma| Q2) with a floor of 1e-9 x the classical magnitude, because the gap ~ exp(-2Q) at low T is hypersensitive to the last digits of hbar/k_B.",
+        "technique": "runtime monitoring: LazyProperty/property hooks + scheduler event monitor, free-energy oracle with mixed numerical derivative",
+    },
+    "C04": {
+        "level": "An event monitor on the real scheduler (resolve, calculate, task getters, results-store get/set) feeds an offline "
+                 "checker: DAG, topological order against get_dependencies() recomputed per task, no read-before-write, every task "
+                 "evaluated once, equal-parameter writes equal, no adiabatic-store reads while computing dependants. Values: a "
+                 "canonical all-21 run per (spectrum, strain field) must be reproduced by singletons, pairs in both orders, random "
+                 "subsets/permutations (1e-10 x tensor scale; 1e-4 inside the scheduler's own allclose de-duplication window, "
+                 "measured and reported); equal strains give the isotropic tensor; all six axis relabellings permute all 81 tuples.",
+        "note": "Strain classes: constant, varying along V, equal, pairwise equal, near-degenerate at 1e-3/1e-4/1e-6/1e-8. The de-duplication by numpy.allclose is the property's own mechanism (DESIGN.md O1).",
+        "technique": "runtime monitoring: recorded scheduler event log + offline ordering/exactly-once checker, metamorphic request/axis runs",
+    },
+})
